@@ -27,6 +27,13 @@ CHECKS = {
             'projection and abstract equality are vlib/evolve.py and vlib/aeq.py; trailing root components after a second '
             'marker are not generated (their AUTOMATIC numbering is a scope note in DESIGN.md)',
             'property-based testing (Hypothesis) over generated version pairs, cross-version differential'),
+    'C08': ('hypothesis', 'exploration',
+            'generated modules x valid encodings x drawn structure-aware mutations and random bytes (<= 4 KiB) x 7 decoding '
+            'codecs: decode returns or raises within a deterministic work budget (interpreter call events proportional to '
+            'input length x type size, calibrated on valid decodes), sampled tracemalloc peak within a proportional '
+            'budget, and the same compiled object still decodes a valid input correctly afterwards',
+            'work measured with sys.setprofile call events; loops inside C extensions only by a 20 s watchdog; expat/json trusted',
+            'mutation-based property testing (Hypothesis-drawn mutations) with a deterministic work-meter oracle'),
     'C11': ('hypothesis', 'exploration',
             'generated modules with the interpreted constraint forms x valid values, each constrained component '
             'replaced in turn by lb-1/lb/ub/ub+1 (sizes likewise, one character outside FROM): '
